@@ -43,7 +43,7 @@ set_option hygiene false in
 macro "whs" : tactic => `(tactic| (
   have wh_call := hH.call; have wh_attr := hH.attr; have wh_setattr := hH.setattr; have wh_index := hH.index
   have wh_contains := hH.contains; have wh_glob := hH.glob; have wh_eq := hH.eqHost
-  have wh_mkw := hH.mcall_kw; have wh_mdict := hH.mcall_dict; have wh_mbf := hH.mcall_bitfield; have wh_mcfg := hH.mcall_cfgval))
+  have wh_mkw := hH.mcall_kw; have wh_mdict := hH.mcall_dict; have wh_mfl := hH.mcall_flags; have wh_mint := hH.mcall_int; have wh_mcfg := hH.mcall_cfgval))
 
 /-- the type-string constants the host stands in for are the working tree's -/
 example : (globLookup Ubx.Gen.Code.globals 0x5831 : Option (V AO)) = some (.str 0x58303031) := rfl
@@ -194,7 +194,7 @@ theorem calc_num_repeats_eq (hH : WalkLike c cls id mode H) (F : Nat) (items : L
   pystep
   pystep
   rw [execB_cons, execS_for]
-  pysimp [wh_mkw, wh_mdict, wh_mbf, wh_mcfg, aMcall, builtinMethod]
+  pysimp [wh_mkw, wh_mdict, wh_mcfg, aMcall, builtinMethod]
   have hl := cnr_loop c cls id mode H hH F items 0
     [(0x73656c66, .host .self), (0x61747464, .host (.dict items)), (0x7061796c6f6164, .bytes payload), (0x6f6666736574, .int off),
      (0x6f6666736574656e64, .int 0), (0x6c656e7061796c6f6164, .int ((payload.length : Int) - off - 0)), (0x6c656e67726f7570, .int 0)] st (by pysimp)
@@ -261,10 +261,13 @@ def CalleeOK (c : WCtx) (H : Host AO ASt) (idx : List Nat) (off : Nat) (st : ASt
   | .attr n ty sc =>
     SpecS (H.mcall (.host .self) 0x5f7365745f6174747269627574655f73696e676c65
         [.str n, defV (.attr n ty sc), .int off, idxT idx, .host .kwargs] [] st) (wSingle c idx n ty sc ⟨off, st.payload, st.env⟩)
-  | .bits n ty _ =>
-    c.parsebf = false →
-    SpecS (H.mcall (.host .self) 0x5f7365745f6174747269627574655f73696e676c65
-        [.str n, .host (.ty ty), .int off, idxT idx, .host .kwargs] [] st) (wSingle c idx n ty .one ⟨off, st.payload, st.env⟩)
+  | .bits n ty fl =>
+    (c.parsebf = false →
+      SpecS (H.mcall (.host .self) 0x5f7365745f6174747269627574655f73696e676c65
+        [.str n, .host (.ty ty), .int off, idxT idx, .host .kwargs] [] st) (wSingle c idx n ty .one ⟨off, st.payload, st.env⟩)) ∧
+    (c.parsebf = true →
+      SpecW idx (H.mcall (.host .self) 0x5f7365745f6174747269627574655f6269746669656c64
+        [.tuple [.host (.ty ty), .host (.flags fl)], .int off, idxT idx, .host .kwargs] [] st) (wBits c idx ty fl ⟨off, st.payload, st.env⟩))
   | .group _ cnt its =>
     SpecW idx (H.mcall (.host .self) 0x5f7365745f6174747269627574655f67726f7570
         [.tuple [cntV cnt, .host (.dict its)], .int off, idxT idx, .host .kwargs] [] st) (wGroup c idx cnt its ⟨off, st.payload, st.env⟩)
@@ -343,7 +346,7 @@ theorem set_attribute_eq (hH : WalkLike c cls id mode H) (F : Nat) (items : List
     cases hpb : c.parsebf
     · simp only [Bool.false_eq_true, ↓reduceIte]
       pysimp
-      have hcall := hcall hpb
+      have hcall := hcall.1 hpb
       simp only [SpecW, SpecS] at hcall ⊢
       cases hws : wSingle c idx n ty .one ⟨off, st.payload, st.env⟩ with
       | error e =>
@@ -355,12 +358,18 @@ theorem set_attribute_eq (hH : WalkLike c cls id mode H) (F : Nat) (items : List
         simp only at hcall ⊢
         pysimp [hcall]
     · simp only [↓reduceIte]
-      pysimp [wh_mbf, aMcall, idxT, decIdx_map, Int.natCast_nonneg, Int.toNat_natCast]
-      cases wBits c idx ty fl ⟨off, st.payload, st.env⟩ with
-      | error e => simp [walkRet, SpecW]
+      pysimp
+      have hcall := hcall.2 hpb
+      simp only [SpecW] at hcall ⊢
+      cases hws : wBits c idx ty fl ⟨off, st.payload, st.env⟩ with
+      | error e =>
+        rw [hws] at hcall
+        simp only at hcall
+        pysimp [hcall]
       | ok s =>
-        simp only [walkRet, SpecW]
-        pysimp [bindT, idxT]
+        rw [hws] at hcall
+        simp only at hcall ⊢
+        pysimp [hcall, bindT]
   | group n cnt its =>
     simp only [Item.key] at hk
     subst hk
@@ -546,7 +555,7 @@ theorem grp_outer_body (hH : WalkLike c cls id mode H) (F : Nat) (its : List Ite
   have hne : (List.map (fun (i : Nat) => (V.int (i : Int) : V AO)) idx ++ [jv]).isEmpty = false := by simp
   have hidx' : (V.tuple (List.map (fun (i : Nat) => (V.int (i : Int) : V AO)) idx ++ [V.int ((a : Int) + 1)]) : V AO) = idxT (idx ++ [a + 1]) := by
     simp [idxT]
-  pystep [gIdx, List.dropLast_concat, hne, Bool.false_eq_true, gD, wh_mkw, wh_mdict, wh_mbf, wh_mcfg, aMcall, hidx']
+  pystep [gIdx, List.dropLast_concat, hne, Bool.false_eq_true, gD, wh_mkw, wh_mdict, wh_mcfg, aMcall, hidx']
   have hl := grp_inner_loop c cls id mode H hH F its (idx ++ [a + 1]) its (hks a) off
     (setVar (setVar vars 0x69 (.int a)) 0x696e646578 (idxT (idx ++ [a + 1]))) st
     (by rw [fr _ _ _ _ (by decide), fr _ _ _ _ (by decide)]; exact gSelf)
@@ -912,7 +921,7 @@ theorem set_attribute_group_eq (hH : WalkLike c cls id mode H) (F : Nat) (cnt : 
   rcases Bool.eq_false_or_eq_true (cfgvalB cls id mode) with hb | hb
   · simp only [hb, ↓reduceIte]
     simp only [grpThen, grpIf, fn_UBXMessage__set_attribute_group]
-    pysimp [wh_mkw, wh_mdict, wh_mbf, wh_mcfg, aMcall, Int.natCast_nonneg, Int.toNat_natCast]
+    pysimp [wh_mkw, wh_mdict, wh_mcfg, aMcall, Int.natCast_nonneg, Int.toNat_natCast]
     simp only [wCfgVal]
     cases c.hasPayload
     · simp [excName]
@@ -1207,7 +1216,7 @@ theorem sg_stage5 (hH : WalkLike c cls id mode H) (F : Nat) (n : Name) (idx : Li
     rw [execS_if]
     pysimp [gKw, wh_contains, aContains, hp, Bool.false_eq_true]
     rw [execB_cons]
-    pysimp [gKw, gN, gD, wh_call, aCall, wh_mkw, wh_mdict, wh_mbf, wh_mcfg, aMcall, anameOfA_nameVA, builtinMethod]
+    pysimp [gKw, gN, gD, wh_call, aCall, wh_mkw, wh_mdict, wh_mcfg, aMcall, anameOfA_nameVA, builtinMethod]
     cases nomval ty with
     | error e => simp [SgPost5, encR]
     | ok nv =>
